@@ -41,6 +41,16 @@ func configuredNetworkTypes(networkTypes []NetworkType) []NetworkType {
 	return networkTypes
 }
 
+func containsNetworkType(networkType NetworkType, networkTypes []NetworkType) bool {
+	for _, configured := range networkTypes {
+		if configured == networkType {
+			return true
+		}
+	}
+
+	return false
+}
+
 func effectiveURLProtoType(url stun.URI) stun.ProtoType {
 	if url.Proto != stun.ProtoTypeUnknown {
 		return url.Proto
@@ -365,6 +375,13 @@ func (a *Agent) gatherCandidatesLocal(ctx context.Context, networkTypes []Networ
 			}
 
 			for network := range networks {
+				// Only gather the (address, transport) combinations that are configured:
+				// e.g. [udp4, tcp6] must not yield udp6 or tcp4 candidates.
+				if candidateNetworkType, ntErr := determineNetworkType(network, mappedIP); ntErr != nil ||
+					!containsNetworkType(candidateNetworkType, networkTypes) {
+					continue
+				}
+
 				type connAndPort struct {
 					conn net.PacketConn
 					port int
